@@ -56,33 +56,16 @@ def rename_wrapper_inputs(rng, g):
 
 
 def inner_bind_default_part(ctx):
-    """A parameter WITH a signature default, bound on the inner graph and also consumed (same default) by a node outside it: the
-    flat graph with that binding is accepted and runs, so the nested one must be too (known finding F-s: it is rejected)."""
+    """A value bound on the inner graph reaches a plain node OUTSIDE it that consumes the same name (depth 1 and 2, both runners),
+    exactly as the flat graph's binding does.  (With a signature DEFAULT on the outside consumer the constructor rejects the
+    nested graph on purpose - tests/test_bind_defaults.py pins that - so that shape is not compared: DESIGN 12.2, not violations.)"""
     from hypergraph import Graph, SyncRunner
     from hypergraph.nodes import FunctionNode
-
-    def tokenize(text, lang="en"):
-        return (text, lang)
-
-    def label(tokens, lang="en"):
-        return (tokens, lang)
-    T = FunctionNode(tokenize, name="tokenize", output_name="tokens")
-    L = FunctionNode(label, name="label", output_name="labelled")
-    flat = SyncRunner().run(Graph([T, L]).bind(lang="de"), {"text": "x"}).values
-    case = {"graph": {"nodes": [{"name": "tok", "kind": "graph", "graph": {"nodes": [{"name": "tokenize", "kind": "func"}], "bound": {"lang": "de"}}},
-                                {"name": "label", "kind": "func"}]}}
-    try:
-        nested = SyncRunner().run(Graph([Graph([T], name="tok").bind(lang="de").as_node(), L]), {"text": "x"}).values
-    except Exception as e:  # noqa: BLE001
-        ctx.violation("oracle", f"the flat graph is accepted but the nested one is rejected by the constructor: {type(e).__name__}: {str(e)[:160]}", case=case)
-        nested = flat
-    if dict(nested) != dict(flat):
-        ctx.violation("oracle", f"inner binding of a defaulted parameter shared with an outside node: flat {dict(flat)} vs nested {dict(nested)}", case=case)
     # the same without signature defaults (depth 1 and 2, both runners): a value bound on the inner graph reaches a plain node OUTSIDE it
     # that consumes the same name, exactly as the flat graph's binding does
     import asyncio
     from hypergraph import AsyncRunner
-    n = 1
+    n = 0
     for depth in (1, 2):
         for runner in ("sync", "async"):
             def tok2(text, lang):
